@@ -291,6 +291,28 @@ def r3_r5_recv_loop(ctx):
                     ctx.ok("C07.R5", loc(fi), f"retry | {atoms} -> {exp}")
 
 
+def r5b_ack_recorded(ctx):
+    """C07.R5 (history): an Ack for transfer 7 arriving while its confirmation is overdue is recorded before the retry pass: the
+    transfer is forgotten, not re-sent (the receiver would otherwise be sent the same dataset again and again)."""
+    repo = ctx.repo
+    fi = repo.func(f"{DSV}.recv_loop")
+    D = ds("D", "T")
+    cmd = _cmd(D, 7)
+    ack = Obj(MSG + "Ack", {"idx": 7}, name="ACK7")
+    env = _loop_env(**{"self.awaiting_confirmation": {7: (cmd, NOW - 10 ** 10)}})
+    paths = _run_loop(repo, [ack], env)
+    ctx.evals(len(paths))
+    for p in paths:
+        sub = _submits(p, "send_payload")
+        aw = p.heap["self.awaiting_confirmation"]
+        if p.exit[0] == "raise" or sub or 7 in aw:
+            ctx.violation("C07.R5", fi.qual, loc(fi), "acknowledged transfer not re-sent",
+                          f"Ack(7) received for an overdue transfer 7: exit={p.exit[0]}, re-submissions={len(sub)}, still awaiting={sorted(aw)}; expected the confirmation to be "
+                          f"recorded and the transfer forgotten")
+        else:
+            ctx.ok("C07.R5", loc(fi), "Ack(7) for an overdue transfer: recorded, transfer forgotten, nothing re-sent")
+
+
 def r6_key_function(ctx):
     """C07.R6: producer, consumer, sender, receiver and purger all derive the segment key with ds2shmid."""
     repo = ctx.repo
@@ -346,4 +368,4 @@ def r_command_index(ctx):
     r5_commands(ctx)
 
 
-RULES = [r_reader_ids, r_command_index, r1_send_payload, r2_store_payload, r3_r5_recv_loop, r6_key_function, r7_thread_confinement, r4_r5_listener, r6_frames]
+RULES = [r_reader_ids, r_command_index, r1_send_payload, r2_store_payload, r3_r5_recv_loop, r5b_ack_recorded, r6_key_function, r7_thread_confinement, r4_r5_listener, r6_frames]
